@@ -19,7 +19,8 @@ RULE = ("boundary enumeration per guarded entry point (index = size-1, size, siz
 CORR_ONLY = ["real memory safety is observed by the sanitizers on the compiled program; the theorems prove the index arithmetic",
              "Interpolation_2D(data_table) sort/unique step: std::sort + std::unique modelled by mergeSort + eraseDups (guard_iff for this constructor is correspondence-only)",
              "values returned by accepted requests are not compared here (C01-C09, C12-C20 do that)"]
-ASSUMPTIONS = ["the property names the matrix ROW index: the inner (column) index of M[i][j] is a plain std::vector index, unchecked by the library (M[1][3] on a 2x3 matrix is a heap overflow); only meaningful inner indices are requested",
+ASSUMPTIONS = ["Import_Table: a ragged file whose number of entries is divisible by its number of rows (\"1 2 3\\n4\\n\" -> 2x2) is reshaped silently by the code (audit2 P10, not repaired by c62bfe8); such files are not requested",
+               "the property names the matrix ROW index: the inner (column) index of M[i][j] is a plain std::vector index, unchecked by the library (M[1][3] on a 2x3 matrix is a heap overflow); only meaningful inner indices are requested",
                "1e-2 of Interpolation::Locate is modelled as exactly 1/100 and unit products exactly; abscissae are probed at ZERO margin (the edge itself, 1/2/4 ulps and 2^-50, 2^-40 relative beside it): a request is left out only if the domain test evaluated in double arithmetic differs from its exact evaluation AND the abscissa lies within 2^-44 (relative) of the edge (counted in input_distribution; 0 of ~6200 quick, 200 of ~45000 thorough requests)",
                "Matrix::Inverse: with exact arithmetic the third exit (zero pivot after partial pivoting) is unreachable for det != 0; inputs are small integer matrices on which double arithmetic is exact",
                "std::is_sorted / std::sort / std::unique behave as specified by the C++ standard"]
@@ -35,19 +36,6 @@ METHODS_1D = ["Trapezoidal", "Gauss-Legendre", "Gauss-Kronrod", "Tanh-Sinh", "Ga
 METHODS_MC = ["Monte-Carlo", "Vegas", "Miser"]
 BAD_METHODS = ["", "gauss-legendre", "GAUSS-LEGENDRE", "Gauss_Legendre", "Gauss-Legendre_3", "Gauss-Legendre_", "Simpson",
                "trapezoidal", "Trapezoidal.", "vegas", "VEGAS", "miser", "MonteCarlo", "Monte-carlo", "Tanh-sinh", "x"]
-
-
-# repairs proposed but not yet applied to /repo: True = the old behaviour is tolerated (the strict requests are not generated);
-# LP_ASSUME_FIXED=23,24 generates them anyway (rehearsal against a tree that carries the patch)
-PENDING_23 = True     # fixprop-C10-23: Minimization::minimize list lengths
-PENDING_24 = True     # fixprop-C10-24: summary statistics on too short data lists
-PENDING_25 = True     # fixprop-C10-25: CDF_Poisson / Inv_CDF_Poisson with UINT_MAX events
-PENDING_26 = True     # fixprop-C10-26: Matrix::Resize / Assign with negative dimensions
-PENDING_27 = True     # fixprop-C10-27: Integrate_MC region shape and number of calls
-
-
-def assume_fixed(i):
-    return (not globals()["PENDING_" + i]) or i in os.environ.get("LP_ASSUME_FIXED", "").split(",")
 
 
 def idx_values(size):
@@ -105,7 +93,7 @@ def _interp_axes(rq):
     """(grid, unit factor, abscissae) per axis of an interpolation query request; None for the other requests"""
     t = rq.split()
     op = t[0]
-    if not op.startswith("c10.interp") or op in ("c10.interp.ctor", "c10.interp.table", "c10.interp2.ctor", "c10.interp2.table"):
+    if not op.startswith("c10.interp") or op in ("c10.interp.ctor", "c10.interp.ctornan", "c10.interp.table", "c10.interp2.ctor", "c10.interp2.table"):
         return None
     pos = 1
     def lst_():
@@ -356,6 +344,9 @@ def generate(tier, seed, ctx):
                 add("c10.interp.table %d %s %s" % (n, " ".join(lst(r) for r in rows), f))
                 rows[k] = []
                 add("c10.interp.table %d %s %s" % (n, " ".join(lst(r) for r in rows), f))
+    for n in (3, 4, 6):
+        for k in range(n):
+            add("c10.interp.ctornan %d %d" % (n, k))
     grids = [[0.0, 100.0, 200.0], [-100.0, 0.0, 200.0, 300.0], [1.0, 1.5, 3.5, 4.0, 8.0]]
     grids += [inc(rng.randint(3, 20)) for _ in range(10 if thorough else 1)]
     ctx["grids"] = len(grids)
@@ -497,7 +488,7 @@ def generate(tier, seed, ctx):
         for a_ in (-1.0, -P30, -0.0, 0.0, P30, 0.5, 1.0, 3.0, 50.0):
             add("c10.invgammap %s %s" % (hx(p), hx(a_)))
     for N in (0.0, -0.0, 1.2345678, -9876.54321, 1e-300, 1e300, 5e-324):
-        for d in (1, 2, 3, 7, 8, 9, 100, UMAX):
+        for d in (0, 1, 2, 3, 7, 8, 9, 100, UMAX):
             add("c10.round %s %d" % (hx(N), d))
     for c in (-IMAX - 1, -2, -1, 0, 1, 2, 3, 4, IMAX):
         add("c10.vshy %d" % c)
@@ -593,6 +584,23 @@ def generate(tier, seed, ctx):
         for x in ((-1.0, -P50, -0.0, 0.0, 1.0, 4.0) if thorough else (-1.0, 0.0, 1.0)):
             add("c10.uppergamma %s %s" % (hx(x), hx(sg)))
             add("c10.lowergamma %s %s" % (hx(x), hx(sg)))
+    for ws in ([], [1.0], [0.5, 0.5], [0.0, 1.0, 0.0], [-P50, 1.0], [1.0 + 2.0 ** -52, 0.0], [0.25, -1.0, 0.75], [0.5, 0.25, 2.0], [-0.0, 0.5, 0.5], [5e-324, 1.0 - 2.0 ** -53], [0.3, -5e-324, 0.7]):
+        for x in (-1.0, 0.0, 2.5):
+            add("c10.pdfchibar %s %s" % (hx(x), lst(ws)))
+            add("c10.cdfchibar %s %s" % (hx(x), lst(ws)))
+    # Import_Table: the entries must fill the rows; blank lines at the end are not rows (fix c62bfe8).  Ragged files whose
+    # number of entries happens to be divisible by the number of rows are reshaped silently (audit2 P10): not requested, see ASSUMPTIONS
+    for lens in ([3, 3], [3, 3, 2], [3, 2, 3], [2, 3], [1, 2, 3], [3, 3, 3], [2], [2, 2, 2, 1], [3, 3, 3, 3, 1], [0, 0], []):
+        rows_ = len(lens)
+        while rows_ and lens[rows_ - 1] == 0:
+            rows_ -= 1
+        e_ = sum(lens)
+        if rows_ and e_ % rows_ == 0 and len(set(lens[:rows_])) > 1:
+            continue            # ragged but divisible: the silent reshape
+        for blank in (0, 2):
+            cols_ = e_ // rows_ if rows_ else 0
+            for nd in sorted({0, cols_, cols_ + 1}):
+                add("c10.importtable.fill %s %d %d" % (ilst(lens), blank, nd))
     add("c10.samplepoissonv 0")
     add("c10.samplepoisson %s" % hx(50.0))
     for pq in (-1.0, -P50, -5e-324, -0.0, 0.0, P50, 0.5, 1.0 - 2.0 ** -53, 1.0, 1.0 + 2.0 ** -52, 2.0):
@@ -613,28 +621,28 @@ def generate(tier, seed, ctx):
                  [[A, B_], [C_, D_], [C_, D_, D_]], [[A]], [[A, B_]], [[A], [C_]], [[A, B_], [C_, (1, 2)]], [[(0, 0)]], [[(0, 2), (0, 1)], [(1, 2), (1, 1)]]):
         add(blk(rows))
     # ---- second audit: list lengths of Minimization::minimize and of the summary statistics, UINT_MAX event counts -------------
-    if assume_fixed("23"):
+    if True:   # repair 23 is in /repo
         for n in range(0, 4):
             add("c10.simplex.delta %d" % n)
             for m in sorted({0, n, n + 1, max(n - 1, 0)}):
                 add("c10.simplex.deltas %d %d" % (n, m))
         for lens in ([], [0], [1], [1, 1], [1, 1, 1], [2, 2], [2, 2, 2], [2, 2, 1], [2, 1, 2], [1, 2, 2], [2, 2, 2, 2], [3, 3, 3, 3], [3, 3, 3], [0, 0], [2, 2, 3], [2, 2, 0]):
             add("c10.simplex.pp %s" % ilst(lens))
-    if assume_fixed("26"):
+    if True:   # repair 26 is in /repo
         for r in (-IMAX - 1, -1, 0, 1, 3):
             for c in (-IMAX - 1, -1, 0, 2):
                 add("c10.mat.resize %d %d" % (r, c)); add("c10.mat.assign %d %d" % (r, c))
-    if assume_fixed("27"):
+    if True:   # repair 27 is in /repo
         for m in METHODS_MC + ["bogus"]:
             for n_ in (-1, 0, 1, 2, 3, 50):
                 add("c10.integmc.shape m:%s %d 4" % (m, n_))
             for rs in (0, 1, 2, 3, 5, 6):
                 add("c10.integmc.shape m:%s 50 %d" % (m, rs))
-    if assume_fixed("24"):
+    if True:   # repair 24 is in /repo
         for n in (0, 1, 2, 3, 8):
             for o in ("mean", "median", "variance", "stddev", "wavg"):
                 add("c10.%s %d" % (o, n))
-    if assume_fixed("25"):
+    if True:   # repair 25 is in /repo
         for mu in (0.0, 1.0, 50.0):
             add("c10.cdfpoisson %s %d" % (hx(mu), UMAX)); add("c10.cdfpoisson %s %d" % (hx(mu), UMAX - 1))
         for c in (0.0, 0.5, 1.0):
@@ -735,6 +743,8 @@ def meaningful(rq):
             return n(0) >= 0 and n(1) >= 0
         if op == "integmc.shape":
             return a[0][2:] in METHODS_MC and n(2) > 0 and n(2) % 2 == 0 and n(1) >= (2 if a[0][2:] == "Vegas" else 1)
+        if op == "interp.ctornan":
+            return False
         if op == "simplex.delta":
             return n(0) >= 1
         if op == "simplex.deltas":
@@ -774,7 +784,7 @@ def meaningful(rq):
         if op in ("pdfgauss", "cdfgauss"):
             return x(2) > 0
         if op == "quantilegauss":
-            return x(2) >= 0 and -1 < 2 * x(0) - 1 < 1 + Fraction(1, 10 ** 16)
+            return x(2) >= 0 and -1 - Fraction(1, 10 ** 16) < 2 * x(0) - 1 < 1 + Fraction(1, 10 ** 16)
         if op == "pdfgauss2d":
             return x(0) > 0 and x(1) > 0
         if op in ("pdfchisq", "cdfchisq"):
@@ -790,11 +800,21 @@ def meaningful(rq):
         if op == "closest.empty":
             return False
         if op == "round":
-            return n(1) <= 7
+            return 1 <= n(1) <= 7
+        if op in ("pdfchibar", "cdfchibar"):
+            return all(0 <= Fraction(fl(v)) <= 1 for v in a[2:])
+        if op == "importtable.fill":
+            k = n(0); lens = [int(v) for v in a[1:1 + k]]; nd = int(a[-1])
+            rows_ = len(lens)
+            while rows_ and lens[rows_ - 1] == 0:
+                rows_ -= 1
+            if rows_ == 0:
+                return True
+            return len(set(lens[:rows_])) == 1 and nd in (0, lens[0])
         if op in ("vshy", "vshpsi"):
             return n(0) in (0, 1, 2)
         if op == "inverf":
-            return -1 < x(0) < 1 + Fraction(1, 10 ** 16)
+            return -1 - Fraction(1, 10 ** 16) < x(0) < 1 + Fraction(1, 10 ** 16)
         if op in ("pmfbinom", "cdfbinom"):
             return 0 <= x(1) <= 1
         if op == "invcdfpoisson":
@@ -820,7 +840,7 @@ def meaningful(rq):
         if op == "importlist":
             return n(0) == 1
         if op in ("importtable", "importtable.empty"):
-            return n(0) == 1 and (n(1) == 0 or n(3) == 0 or n(3) == n(2))
+            return n(0) == 1 and (n(1) == 0 or n(2) == 0 or n(3) == 0 or n(3) == n(2))
         if op == "checkerr":
             return n(0) == 0
         if op == "sublist":
